@@ -68,6 +68,10 @@ type EndpointShards struct {
 	// Due to the larger time, it is still possible that connection errors will occur while
 	// CDS is updated.
 	ServiceAccounts sets.String
+
+	// unlinked is set, under the lock, once these shards have been removed from the EndpointIndex.
+	// A writer that looked the shards up before they were removed must not store into them.
+	unlinked bool
 }
 
 // Keys gives a sorted list of keys for EndpointShards.Shards.
@@ -270,6 +274,7 @@ func (e *EndpointIndex) deleteServiceInner(shard ShardKey, serviceName, namespac
 	if !preserveKeys {
 		if len(epShards.Shards) == 0 {
 			delete(e.shardsBySvc[serviceName], namespace)
+			epShards.unlinked = true
 		}
 		if len(e.shardsBySvc[serviceName]) == 0 {
 			delete(e.shardsBySvc, serviceName)
@@ -328,6 +333,16 @@ func (e *EndpointIndex) UpdateServiceEndpoints(
 	}
 
 	ep.Lock()
+	for ep.unlinked {
+		// The shards were removed from the index by a concurrent service or cluster deletion between
+		// our look-up and taking the lock; storing into them would lose this update. Look them up again.
+		ep.Unlock()
+		ep, created = e.GetOrCreateEndpointShard(hostname, namespace)
+		if created {
+			pushType = FullPush
+		}
+		ep.Lock()
+	}
 	defer ep.Unlock()
 	oldIstioEndpoints := ep.Shards[shard]
 	newIstioEndpoints, needPush := endpointUpdateRequiresPush(oldIstioEndpoints, istioEndpoints)
